@@ -105,11 +105,26 @@ type c19World struct {
 	// (concurrent test) other goroutines get to issue calls while the kernel
 	// goroutine is inside a request, whatever the number of free processors.
 	slow int
+
+	// impatient caller (sequential test): when the addTxFunc runs for the cancelAt-th time within
+	// the current call, the caller of that call gives up (its own context is cancelled).
+	calls, cancelAt atomic.Int64
+	cancelCaller    atomic.Pointer[context.CancelFunc]
 }
 
-func (w *c19World) apply(_ context.Context, s *c19State, tx c19Tx) (*c19State, error) {
+func (w *c19World) apply(ctx context.Context, s *c19State, tx c19Tx) (*c19State, error) {
 	for i := 0; i < w.slow; i++ {
 		runtime.Gosched()
+	}
+	if n, ca := w.calls.Add(1), w.cancelAt.Load(); ca > 0 && n == ca {
+		if c := w.cancelCaller.Load(); c != nil {
+			(*c)()
+		}
+	}
+	// a well-behaved callback honours the context it is given
+	// (New's doc: an error that is not a TxInvalidError is fatal for the operation)
+	if err := ctx.Err(); err != nil {
+		return nil, err
 	}
 	if s == nil {
 		w.nilState.Add(1)
